@@ -120,12 +120,27 @@ func (isolateComp) Exec(op string) (string, string, string, bool) {
 	if len(f) != 2 {
 		return "bad-op", "", "bad", false
 	}
-	rig, err := NewRig(RigOpts{Carrier: f[0], Insecure: true})
+	chans := map[string]string{"echo": "echo"}
+	if f[1] == "stalltarget" {
+		chans["sink"] = "unix-noread"
+	}
+	rig, err := NewRig(RigOpts{Carrier: f[0], Insecure: true, Channels: chans})
 	if err != nil {
 		return "fail:rig", err.Error(), "fail", false
 	}
 	defer rig.Close()
 	dl := 8 * time.Second
+	if f[1] == "stalltarget" {
+		// connection S goes to a target that accepts and never reads; the application pushes 2 MiB at it (far less
+		// than the multiplexer's shared 4 MiB receive buffer); B, opened before and after, must keep working
+		sc, err := rig.Dial("sink")
+		if err != nil {
+			return "fail", "connection to the stalled target: " + err.Error(), f[0], false
+		}
+		defer sc.Close()
+		go func() { _ = writeParts(sc, payload(4, 2<<20), 32768, 20*time.Second) }()
+		time.Sleep(500 * time.Millisecond)
+	}
 	a, err := echoOnce(rig, 16, 1, dl)
 	if err != nil {
 		return "fail", "connection A: " + err.Error(), f[0], false
@@ -168,14 +183,15 @@ func (isolateComp) Exec(op string) (string, string, string, bool) {
 }
 
 func (isolateComp) Gen(r *Rand, tier string, emit func(string)) {
-	for _, e := range []string{"clean", "rst", "flood"} {
+	for _, e := range []string{"clean", "rst", "flood", "stalltarget"} {
 		emit("tcp " + e)
 	}
+	emit("ws stalltarget")
 	emit("ws rst")
 	emit("stdio rst")
 	if tier == "thorough" {
 		for _, c := range []string{"tcptls", "starttls", "ws", "wss", "stdio", "udp"} {
-			for _, e := range []string{"clean", "rst", "flood"} {
+			for _, e := range []string{"clean", "rst", "flood", "stalltarget"} {
 				emit(c + " " + e)
 			}
 		}
